@@ -485,3 +485,44 @@ class Tree(object):
     def dump(self):
         return (tuple(self.kind), tuple(self.name), tuple(None if k is None else tuple(k) for k in self.kids),
                 tuple(None if a is None else tuple(a.items()) for a in self.attrs), tuple(self.par))
+
+
+def _selftest():
+    """The fixed examples of plasTeX's unittests/DOM/Node.py, evaluated on the strict model."""
+    t = Tree()
+    doc, node, one, two, three, four = (t.new(D), t.new(E, 'node'), t.new(E, 'one'), t.new(T, 'two'),
+                                        t.new(E, 'three'), t.new(E, 'four'))
+    frag = t.new(F)
+    t.apply(('append', node, one, NA)); t.apply(('append', node, two, NA))
+    t.apply(('append', frag, three, NA)); t.apply(('append', frag, four, NA))
+    assert t.apply(('insert', node, frag, 1)) == ('ok', frag)                       # testInsert3
+    assert t.kids[node] == [one, three, four, two] and t.par[three] == node
+    five = t.new(E, 'five')
+    t.apply(('setitem', node, five, 1))                                             # testSetItem
+    assert t.kids[node] == [one, five, four, two]
+    t.apply(('setitem', node, three, -1))
+    assert t.kids[node] == [one, five, four, three]
+    t.apply(('append', doc, node, NA)); t.apply(('append', three, two, NA))
+    tp = t.tree_parent()
+    ptr = t.clean_pointers(tp)
+    assert t.compare(one, two, ptr) == POS_FOLLOWING and t.compare(two, one, ptr) == POS_PRECEDING   # testCompare...
+    assert t.compare(node, two, ptr) == POS_CONTAINED_BY and t.compare(two, node, ptr) == POS_CONTAINS
+    assert t.compare(four, five, ptr) == POS_PRECEDING and t.compare(five, three, ptr) == POS_FOLLOWING
+    n2, a, b, c = t.new(E, 'n'), t.new(T, 'a'), t.new(T, 'b'), t.new(T, 'c')
+    q = t.new(E, 'q')
+    for x in (a, b, q, c):
+        t.apply(('append', n2, x, NA))
+    before = t.text(n2)
+    t.apply(('normalize', n2, NA, NA))                                              # testNormalize
+    assert [t.name[k] for k in t.kids[n2]] == ['ab', 'q', 'c'] and t.text(n2) == before
+    shape = t.shape(n2)
+    t.apply(('normalize', n2, NA, NA))
+    assert t.shape(n2) == shape
+    assert t.apply(('pop', q, NA, NA)) == ('raises', 'IndexError')
+    r = t.apply(('clone', n2, NA, 1))
+    assert r[0] == 'ok' and t.shape(r[1]) == t.shape(n2) and not set(t.kids[r[1]]) & set(t.kids[n2])
+    return True
+
+
+if __name__ == '__main__':
+    print('dom_tree_c06 self-test', 'ok' if _selftest() else 'FAILED')
